@@ -152,7 +152,7 @@ def add_stage(pid, tier, rc_first, modes, props, extra_assumptions=()):
         path = K.save_replay(pid, re.sub(r"[^A-Za-z0-9_.-]", "_", key)[:100], files)
         print("VIOLATION property=%s replay=%s" % (pid, path))
         print("  " + text)
-    evp = os.path.join(K.VERIF, "evidence", pid + ".json")
+    evp = K.evidence_path(pid)
     ev = json.load(open(evp))
     c = ev["coverage"]
     c["driver_stage"] = {"engine": "E3 symdrive: the real state_machine.rs driver explored path by path under z3-decided branch feasibility", "modes": cov["modes"],
